@@ -147,6 +147,8 @@ func checkC17(p *Program, r *Result) {
 	gr := newGoLayouts(p, pkgReadC)
 	checkOutputNames(p, r, gr, vf)
 	checkSummaryOrder(p, r, vf)
+	r.rule("C17.g", "every Skip* writer option suppresses the part it names", 1)
+	checkSkipOptionsEffective(p, r, "C17.g")
 	r.rule("C17.f", "read tool: numeric field values are rendered with numeric verbs", 2)
 	checkReadToolRendering(p, r, "C17.f")
 	r.rule("C17.m", "the writer emits records and index entries in the order and form it was handed them", 1)
